@@ -74,7 +74,7 @@ PROPERTIES = {
              'do_spawn is true only if spawned+1 < max; max <= n for Max(n); Max(1) reaches no runner entry. '
              'Not decided: OS scheduling (thread::scope semantics, T2).'),
     'C09': P('sequential mode is identical to std iterator execution',
-             ['S1', 'S6', 'C09-SEQSHAPE', 'C09-EMPTY', 'S3', 'S7', 'C12-STORE', 'C09-TIES', 'C12-NOSET', 'C09-SUMID'],
+             ['S1', 'S6', 'C09-SEQSHAPE', 'C09-EMPTY', 'S3', 'S7', 'C12-STORE', 'C09-TIES', 'C12-NOSET', 'C09-SUMID', 'C09-NOCONC'],
              STATIC + 'Decided: num_threads(1) dispatches to the sequential kernel on every route; sequential kernels are in-order, lazy / '
              'left-fold std chains rooted at into_seq_iter with closures in declaration order and no chunk size; min*/max* wrappers break ties '
              'like std (first minimum, last maximum); no stage is re-parameterised by the library. '
